@@ -48,42 +48,19 @@ pub enum Wire {
     Garbage(Vec<u8>),
 }
 
-/// The peer's end of the pipe plus the parse state of the endpoint's output
-pub struct Peer {
-    pub io: DuplexStream,
+/// Incremental parser of what the endpoint writes
+pub struct Parser {
     buf: Vec<u8>,
     seen_header: bool,
     pub expect_headers: usize,
-    pub eof: bool,
 }
 
-impl Peer {
-    pub fn new(io: DuplexStream) -> Self {
-        Self { io, buf: Vec::new(), seen_header: false, expect_headers: 1, eof: false }
+impl Parser {
+    pub fn new() -> Self {
+        Self { buf: Vec::new(), seen_header: false, expect_headers: 1 }
     }
-    pub async fn write(&mut self, b: &[u8]) -> bool {
-        self.io.write_all(b).await.is_ok()
-    }
-    pub async fn shutdown(&mut self) {
-        let _ = self.io.shutdown().await;
-    }
-    /// read whatever the endpoint has written so far (non-blocking thanks to the paused clock)
-    pub async fn drain(&mut self) -> Vec<Wire> {
-        loop {
-            let mut tmp = [0u8; 65536];
-            match tokio::time::timeout(Duration::from_micros(1), self.io.read(&mut tmp)).await {
-                Ok(Ok(0)) => {
-                    self.eof = true;
-                    break;
-                }
-                Ok(Ok(n)) => self.buf.extend_from_slice(&tmp[..n]),
-                Ok(Err(_)) => {
-                    self.eof = true;
-                    break;
-                }
-                Err(_) => break,
-            }
-        }
+    pub fn feed(&mut self, b: &[u8]) -> Vec<Wire> {
+        self.buf.extend_from_slice(b);
         let mut out = Vec::new();
         loop {
             if self.expect_headers > 0 && !self.seen_header || (self.buf.len() >= 4 && &self.buf[..4] == b"AMQP") {
@@ -122,6 +99,100 @@ impl Peer {
                     }
                     Err(_) => out.push(Wire::Garbage(fr)),
                 }
+            }
+        }
+        out
+    }
+}
+
+/// The peer's end of the pipe plus the parse state of the endpoint's output
+pub struct Peer {
+    pub io: DuplexStream,
+    pub parser: Parser,
+    pub eof: bool,
+}
+
+impl Peer {
+    pub fn new(io: DuplexStream) -> Self {
+        Self { io, parser: Parser::new(), eof: false }
+    }
+    pub async fn write(&mut self, b: &[u8]) -> bool {
+        self.io.write_all(b).await.is_ok()
+    }
+    pub async fn shutdown(&mut self) {
+        let _ = self.io.shutdown().await;
+    }
+    /// read whatever the endpoint has written so far (non-blocking thanks to the paused clock)
+    pub async fn drain(&mut self) -> Vec<Wire> {
+        let mut out = Vec::new();
+        loop {
+            let mut tmp = [0u8; 65536];
+            match tokio::time::timeout(Duration::from_micros(1), self.io.read(&mut tmp)).await {
+                Ok(Ok(0)) => {
+                    self.eof = true;
+                    break;
+                }
+                Ok(Ok(n)) => out.extend(self.parser.feed(&tmp[..n])),
+                Ok(Err(_)) => {
+                    self.eof = true;
+                    break;
+                }
+                Err(_) => break,
+            }
+        }
+        out
+    }
+}
+
+/// A peer whose reading side runs in its own task and stamps everything the endpoint writes
+/// with the (virtual) time at which it was written
+pub struct TimedPeer {
+    pub wr: tokio::io::WriteHalf<DuplexStream>,
+    log: std::sync::Arc<std::sync::Mutex<Vec<(u64, Option<Vec<u8>>)>>>,
+    parser: Parser,
+    pub eof_at: Option<u64>,
+}
+
+impl TimedPeer {
+    /// [t0]: the instant from which times are counted
+    pub fn new(io: DuplexStream, t0: tokio::time::Instant) -> Self {
+        let (mut rd, wr) = tokio::io::split(io);
+        let log = std::sync::Arc::new(std::sync::Mutex::new(Vec::new()));
+        let l2 = log.clone();
+        tokio::spawn(async move {
+            loop {
+                let mut tmp = [0u8; 65536];
+                let r = rd.read(&mut tmp).await;
+                let t = tokio::time::Instant::now().saturating_duration_since(t0).as_millis() as u64;
+                match r {
+                    Ok(0) | Err(_) => {
+                        l2.lock().unwrap().push((t, None));
+                        break;
+                    }
+                    Ok(n) => l2.lock().unwrap().push((t, Some(tmp[..n].to_vec()))),
+                }
+            }
+        });
+        Self { wr, log, parser: Parser::new(), eof_at: None }
+    }
+    pub async fn write(&mut self, b: &[u8]) -> bool {
+        self.wr.write_all(b).await.is_ok()
+    }
+    pub async fn shutdown(&mut self) {
+        let _ = self.wr.shutdown().await;
+    }
+    /// everything written since the last call, with its time
+    pub fn take(&mut self) -> Vec<(u64, Wire)> {
+        let chunks: Vec<(u64, Option<Vec<u8>>)> = std::mem::take(&mut *self.log.lock().unwrap());
+        let mut out = Vec::new();
+        for (t, c) in chunks {
+            match c {
+                Some(b) => {
+                    for w in self.parser.feed(&b) {
+                        out.push((t, w));
+                    }
+                }
+                None => self.eof_at = Some(t),
             }
         }
         out
